@@ -24,6 +24,8 @@ CLAIMED = {
          "Coq proof (per-node view preservation, parent isolation) + lock-step correspondence over child trees against a reference tree"),
  "C13": ("proof", "The documented write-back protocol yields a legal lower-level update (C13_protocol_legal); overlay, drained, in-order (prefix) and re-offer-after-failure theorems for every schedule and failure pattern. Lock-step correspondence with a map-backed lower level driven by the protocol, with injected failures.", "4 (C13)",
          "Coq proof: protocol legality + prefix invariant; tie: lock-step correspondence with a map-backed lower level"),
+ "C14": ("proof", "For every ascending key list, every quota / minimum-key-bytes setting (hence every hop and every truncated index) and every probe, the index window contains the key's position and its lower bound, and point lookups and range starts through the index equal the linear specification and the un-indexed search (C14_window_contains_key, C14_point_lookup_independent, C14_range_start_independent, C14_unindexed_search_correct; fuel sufficiency proved, no bound on sizes). Tie: function-level correspondence through verif exports (index shape, window, findKeyPos, findStartKeyInclusivePos) and API-level agreement of one directory opened under seven index settings.", "4 (C14)",
+         "Coq proof: window/lookup theorems for every hop and truncation; tie: function-level and API-level correspondence"),
  "C20": ("proof", "Zero dirty segments imply the lower level equals the reference (C20_zero_gauges_mean_persisted), for every schedule. Gauges are compared with the model at every label and, whenever they are zero, the store's own snapshot with the reference tree (child collections included). Known finding F10b (existence-only batches) is listed.", "4 (C20)",
          "Coq proof: zero gauges => lower level = reference; tie: gauges and store content compared at every label"),
 }
